@@ -75,26 +75,32 @@ theorem C42_mergeResponse (ps : List Piece) (h : Coherent ps) :
     StepAlign → SplitByInterval → results cache (hit with any number of extents, partial hits,
     tiny extents, misses) → MergeResponse answers with the direct answer to the step-aligned
     request and leaves a good cache. -/
-theorem C42_step (g : Bool) (D : Down) (hD : D.Sorted) (splitMs : Int) (hsp : 0 < splitMs) (c : Cache) (req : Req)
+theorem C42_step (g : Bool) (env : Env) (D : Down) (hD : D.Sorted) (splitMs : Int) (hsp : 0 < splitMs) (c : Cache) (req : Req)
     (hstep : 0 < req.step) (h0 : 0 ≤ req.start) (hle : req.start ≤ req.stop) (hc : GoodCache D req.step c) :
-    ∃ c', frontend ⟨true, g⟩ D true splitMs c req =
+    ∃ c', frontend ⟨true, g⟩ env D true splitMs c req =
         some (evalD D (req.start / req.step * req.step) (req.stop / req.step * req.step) req.step, c') ∧
       GoodCache D req.step c' :=
-  frontend_spec g D hD splitMs hsp c req hstep h0 hle hc
+  frontend_spec g env D hD splitMs hsp c req hstep h0 hle hc
 
-theorem history_same_step (g : Bool) (D : Down) (hD : D.Sorted) (splitMs : Int) (hsp : 0 < splitMs) (st : Int) (hst : 0 < st) :
-    ∀ (reqs : List Req) (c : Cache), GoodCache D st c → (∀ r ∈ reqs, r.step = st ∧ 0 ≤ r.start ∧ r.start ≤ r.stop) →
-      history ⟨true, g⟩ D true splitMs c reqs =
-        reqs.map fun r => some (evalD D (r.start / st * st) (r.stop / st * st) st)
+theorem historyE_same_step (g : Bool) (D : Down) (hD : D.Sorted) (splitMs : Int) (hsp : 0 < splitMs) (st : Int) (hst : 0 < st) :
+    ∀ (steps : List Step) (c : Cache), GoodCache D st c →
+      (∀ s ∈ steps, s.req.step = st ∧ 0 ≤ s.req.start ∧ s.req.start ≤ s.req.stop) →
+      historyE ⟨true, g⟩ D true splitMs c steps =
+        steps.map fun s => some (evalD D (s.req.start / st * st) (s.req.stop / st * st) st)
   | [], _, _, _ => rfl
-  | r :: rs, c, hc, hr => by
-    obtain ⟨h1, h2, h3⟩ := hr r (by simp)
-    subst h1
-    obtain ⟨c', hf, hc'⟩ := C42_step g D hD splitMs hsp c r hst h2 h3 hc
-    unfold history
+  | s :: rs, c, hc, hr => by
+    obtain ⟨h1, h2, h3⟩ := hr s (by simp)
+    have hc0 : GoodCache D st (if s.flush then [] else c) := by
+      cases s.flush
+      · simpa using hc
+      · intro kv hkv; simp at hkv
+    obtain ⟨c', hf, hc'⟩ := C42_step g s.env D hD splitMs hsp _ s.req (h1 ▸ hst) h2 h3 (h1 ▸ hc0)
+    unfold historyE
+    simp only
     rw [hf]
     simp only [List.map_cons]
-    rw [history_same_step g D hD splitMs hsp r.step hst rs c' hc' (fun r' hr' => hr r' (List.mem_cons_of_mem _ hr'))]
+    rw [historyE_same_step g D hD splitMs hsp st hst rs c' (h1 ▸ hc') (fun r' hr' => hr r' (List.mem_cons_of_mem _ hr'))]
+    simp [h1]
 
 /-- **C42 for histories that use one step** (any step, any split interval, any number of
     requests, aligned or not — StepAlign is on —, overlapping / adjacent / disjoint / repeated
@@ -104,7 +110,13 @@ theorem C42_same_step (g : Bool) (D : Down) (hD : D.Sorted) (splitMs : Int) (hsp
     (reqs : List Req) (hr : ∀ r ∈ reqs, r.step = st ∧ 0 ≤ r.start ∧ r.start ≤ r.stop) :
     history ⟨true, g⟩ D true splitMs [] reqs =
       reqs.map fun r => some (evalD D (r.start / st * st) (r.stop / st * st) st) :=
-  history_same_step g D hD splitMs hsp st hst reqs [] (by intro kv hkv; simp at hkv) hr
+  by
+  unfold history
+  rw [historyE_same_step g D hD splitMs hsp st hst _ [] (by intro kv hkv; simp at hkv) (by
+    intro s hs
+    obtain ⟨r, hr', rfl⟩ := List.mem_map.mp hs
+    exact hr r hr')]
+  simp [List.map_map, Function.comp_def]
 
 -- non-vacuity: a three-request history (hit, extension to the right, front piece) meets the hypotheses
 example : ∀ r ∈ [(⟨7800000, 8400000, 600000⟩ : Req), ⟨7200000, 9000000, 600000⟩, ⟨6000000, 7800000, 600000⟩],
@@ -117,10 +129,10 @@ example : ∀ r ∈ [(⟨7800000, 8400000, 600000⟩ : Req), ⟨7200000, 9000000
 /-- **C42_alt_step**: a request answered from extents cached under a smaller common step `s'`
     that divides its step (alternative cache keys) gets the direct answer — this needs the grid
     repair (`C42_noGridFix_false`). -/
-theorem C42_alt_step (D : Down) (hD : D.Sorted) (req : Req) (hreq : Aligned req) (s' : Int) (hs' : 0 < s')
+theorem C42_alt_step (env : Env) (D : Down) (hD : D.Sorted) (req : Req) (hreq : Aligned req) (s' : Int) (hs' : 0 < s')
     (hdvd : req.step % s' = 0) (exts : List Extent) (hgood : ∀ e ∈ exts, GoodExtent D s' e) :
-    (handleHit ⟨true, true⟩ D req exts true).1 = evalD D req.start req.stop req.step :=
-  handleHit_resp_m D hD req hreq s' hs' hdvd exts hgood
+    (handleHit ⟨true, true⟩ env D req exts true).1 = evalD D req.start req.stop req.step :=
+  handleHit_resp_m env D hD req hreq s' hs' hdvd exts hgood
 
 /-- **C42 for all histories**: any number of range requests with any positive steps (common
     steps that reuse lower-step extents and others), aligned or not (StepAlign is on), any
@@ -130,7 +142,28 @@ theorem C42_history (D : Down) (hD : D.Sorted) (splitMs : Int) (hsp : 0 < splitM
     (hr : ∀ r ∈ reqs, 0 < r.step ∧ 0 ≤ r.start ∧ r.start ≤ r.stop) :
     history ⟨true, true⟩ D true splitMs [] reqs =
       reqs.map fun r => some (evalD D (r.start / r.step * r.step) (r.stop / r.step * r.step) r.step) :=
-  history_spec_m D hD splitMs hsp reqs [] (by intro kv hkv; simp at hkv) hr
+  history_spec_m D hD splitMs hsp reqs [] (goodCacheM_nil D) hr
+
+
+/-- **C42 with the run-time rules**: the same for histories in which every request comes with its
+    own environment — any freshness cut-off `maxCacheTime` (requests in the fresh zone bypass the
+    cache, extents are truncated by `filterRecentExtents`), any set of responses that
+    `shouldCacheResponse` refuses to cache (`Cache-Control: no-store`, `@` beyond the end,
+    negative offsets), and a cache that may lose all its entries before any request (eviction,
+    restart).  Data that does not change is still the premise: the freshness rule exists because
+    recent data does change. -/
+theorem C42_history_env (D : Down) (hD : D.Sorted) (splitMs : Int) (hsp : 0 < splitMs) (steps : List Step)
+    (hr : ∀ s ∈ steps, 0 < s.req.step ∧ 0 ≤ s.req.start ∧ s.req.start ≤ s.req.stop) :
+    historyE ⟨true, true⟩ D true splitMs [] steps =
+      steps.map fun s => some (evalD D (s.req.start / s.req.step * s.req.step) (s.req.stop / s.req.step * s.req.step) s.req.step) :=
+  historyE_spec D hD splitMs hsp steps [] (goodCacheM_nil D) hr
+
+-- non-vacuity: a request inside the fresh zone, an uncacheable response and a flush in one history
+example : ∀ s ∈ [(⟨⟨1000000, fun _ => false⟩, false, ⟨600000, 1200000, 60000⟩⟩ : Step),
+      ⟨⟨1000000, fun r => r.start ≤ 660000 && 660000 ≤ r.stop⟩, true, ⟨0, 900000, 60000⟩⟩,
+      ⟨⟨1100000, fun _ => false⟩, false, ⟨1080000, 1200000, 60000⟩⟩],
+    0 < s.req.step ∧ 0 ≤ s.req.start ∧ s.req.start ≤ s.req.stop := by
+  intro s hs; simp at hs; rcases hs with rfl | rfl | rfl <;> decide
 
 /-- **C42** at full strength holds for the repository as it is now (`liveCfg`, both repairs). -/
 theorem C42 : C42_full ⟨true, true⟩ := by
@@ -250,5 +283,43 @@ theorem C42_fact_chain :
        "if tr.Start%step != 0 {",
        "keys = append(keys, t.generateQueryRangeCacheKey(userID, tr, step, splitInterval, currentInterval))"] :=
   ⟨rfl, rfl, rfl, rfl⟩
+
+/-- the run-time rules read as modelled by `Env`: the fresh-zone bypass `r.GetStart() > maxCacheTime`,
+    write-back only after a primary hit or a miss, `filterRecentExtents` before `put`, and where
+    `shouldCacheResponse` is consulted -/
+theorem C42_fact_freshness :
+    Thanos.Facts.doFreshnessLines =
+      ["var ( key = s.splitter.GenerateCacheKey(tenant.JoinTenantIDs(tenantIDs), r) extents []Extent response Response writeBack = true )",
+       "maxCacheTime := int64(model.Now().Add(-maxCacheFreshness))",
+       "if r.GetStart() > maxCacheTime {",
+       "response, extents, err = s.handleHit(ctx, r, cached, maxCacheTime, extractAnyStep)",
+       "response, extents, err = s.handleHit(ctx, r, cached, maxCacheTime, extractMatchingStep)",
+       "writeBack = false",
+       "response, extents, err = s.handleMiss(ctx, r, maxCacheTime)",
+       "if err == nil && writeBack && len(extents) > 0 {",
+       "extents, err := s.filterRecentExtents(r, maxCacheFreshness, extents)",
+       "s.put(ctx, key, extents)"] ∧
+    Thanos.Facts.filterRecentBody =
+      ["maxCacheTime := (int64(model.Now().Add(-maxCacheFreshness)) / req.GetStep()) * req.GetStep()",
+       "for i := range extents {",
+       "if extents[i].End > maxCacheTime {",
+       "extents[i].End = maxCacheTime",
+       "res, err := extents[i].toResponse()",
+       "if err != nil {",
+       "return nil, err",
+       "}",
+       "extracted := s.extractor.Extract(extents[i].Start, maxCacheTime, res)",
+       "any, err := types.MarshalAny(extracted)",
+       "if err != nil {",
+       "return nil, err",
+       "}",
+       "extents[i].Response = any",
+       "}",
+       "}",
+       "return extents, nil"] ∧
+    Thanos.Facts.shouldCacheResponseUses =
+      ["handleMiss: if !s.shouldCacheResponse(ctx, r, response, maxCacheTime) {",
+       "handleHit: if !s.shouldCacheResponse(ctx, r, reqResp.Response, maxCacheTime) {"] :=
+  ⟨rfl, rfl, rfl⟩
 
 end Thanos.ResultsCache
